@@ -113,6 +113,17 @@ MUTATIONS = [
     ('c10-shared-counter', 'C10', 'abacusnbody/hod/GRAND_HOD.py', '            if randoms[i] <= LRG_marker:\n                Nout[tid, 0, 0] += 1  # counting\n                keep[i] = 1\n            elif randoms[i] <= ELG_marker:\n                Nout[tid, 1, 0] += 1  # counting\n                keep[i] = 2\n            elif randoms[i] <= QSO_marker:\n                Nout[tid, 2, 0] += 1  # counting\n                keep[i] = 3\n            else:\n                keep[i] = 0\n\n    # compose galaxy array, first create array of galaxy starting indices for the threads\n    gstart = np.empty((Nthread + 1, 3), dtype=np.int64)\n    gstart[0, :] = 0\n    gstart[1:, 0] = Nout[:, 0, 0].cumsum()\n    gstart[1:, 1] = Nout[:, 1, 0].cumsum()\n    gstart[1:, 2] = Nout[:, 2, 0].cumsum()\n\n    # galaxy arrays\n    N_lrg = gstart[-1, 0]\n    lrg_x = np.empty(N_lrg, dtype=mass.dtype)',
      '            if randoms[i] <= LRG_marker:\n                Nout[0, 0, 0] += 1  # counting\n                keep[i] = 1\n            elif randoms[i] <= ELG_marker:\n                Nout[tid, 1, 0] += 1  # counting\n                keep[i] = 2\n            elif randoms[i] <= QSO_marker:\n                Nout[tid, 2, 0] += 1  # counting\n                keep[i] = 3\n            else:\n                keep[i] = 0\n\n    # compose galaxy array, first create array of galaxy starting indices for the threads\n    gstart = np.empty((Nthread + 1, 3), dtype=np.int64)\n    gstart[0, :] = 0\n    gstart[1:, 0] = Nout[:, 0, 0].cumsum()\n    gstart[1:, 1] = Nout[:, 1, 0].cumsum()\n    gstart[1:, 2] = Nout[:, 2, 0].cumsum()\n\n    # galaxy arrays\n    N_lrg = gstart[-1, 0]\n    lrg_x = np.empty(N_lrg, dtype=mass.dtype)'),
     ('c10-searchsorted-shared', 'C10', 'abacusnbody/hod/abacus_hod.py', '        res[i] = np.searchsorted(a, b[i])', '        res[i // 2 * 2] = np.searchsorted(a, b[i])'),
+    # ---- C01
+    ('c01-b-offset-restarts', 'C01', 'abacusnbody/data/compaso_halo_catalog.py', '                final=True,\n                offset=offset,\n', '                final=True,\n'),
+    ('c01-cleaned-away-kept', 'C01', 'abacusnbody/data/compaso_halo_catalog.py', "                self.halos[f'npout{AB}'][cleaned_mask] = 0\n", ''),
+    ('c01-merged-not-counted', 'C01', 'abacusnbody/data/compaso_halo_catalog.py', "                npoutAB = npoutAB + self.halos[f'npout{AB}_merge']", "                npoutAB = npoutAB + 0 * self.halos[f'npout{AB}_merge']"),
+    ('c01-merge-write-offset', 'C01', 'abacusnbody/data/compaso_halo_catalog.py', '                # fast-forward the write index\n                woff = slab_read_lens[i]\n\n                if pos is not None:', '                # fast-forward the write index\n                woff = 0\n\n                if pos is not None:'),
+    ('c01-unsorted-listing', 'C01', 'abacusnbody/data/compaso_halo_catalog.py', 'halo_fns = sorted(groupdir.glob(globpat))', 'halo_fns = list(groupdir.glob(globpat))'),
+    ('c01-clean-file-always-A', 'C01', 'abacusnbody/data/compaso_halo_catalog.py', "                            f'{colname}_{AB}'\n", "                            f'{colname}_A'\n"),
+    ('c01-file-offsets-no-initial', 'C01', 'abacusnbody/data/compaso_halo_catalog.py', '        util.cumsum(N_halo_per_file, halo_file_offsets, initial=True, final=True)', '        halo_file_offsets[0] = 0\n        util.cumsum(N_halo_per_file[:-1], halo_file_offsets[1:-1], initial=False, final=True) if len(N_halo_per_file) > 1 else None\n        halo_file_offsets[-1] = N_halo_per_file.sum() - (1 if len(N_halo_per_file) > 2 else 0)'),
+    ('c01-pid-read-offset', 'C01', 'abacusnbody/data/compaso_halo_catalog.py', '            halo_packedpid = slab_packedpid[\n                slab_read_offsets[i] : slab_read_offsets[i] + slab_read_lens[i]\n            ]', '            halo_packedpid = slab_packedpid[\n                slab_write_offsets[i] - slab_write_offsets[0] : slab_write_offsets[i] - slab_write_offsets[0] + slab_read_lens[i]\n            ]'),
+    ('c01-slab-index-parse', 'C01', 'abacusnbody/data/compaso_halo_catalog.py', "[int(hfn.stem.split('_')[-1]) for hfn in halo_fns]", "[int(hfn.stem.split('_')[-1]) % 10 for hfn in halo_fns]"),
+    ('c01-npout-diff-dtype', 'C01', 'abacusnbody/data/compaso_halo_catalog.py', 'npstartAB_new[AB][:-1], name=f', 'npstartAB_new[AB][1:], name=f'),
     # ---- C17
     ('c17-shared-histogram', 'C17', 'abacusnbody/analysis/tsc.py',
      'counts[t, keys[i]] += 1', 'counts[0, keys[i]] += 1'),
